@@ -184,15 +184,20 @@ example : (run foldSimp (fun _ _ => .unsat) {} exEnv exCode 100).ends = [] ∧
     With `cfg.balances` on: `hbal` as in `C01.sound_calls`, and `hbound` — finitely many accounts hold ether and their
     total is at most 2^128 (`BalBound`): halmos appends `balance <= MAX_ETH` to the path for every balance it reads (the
     documented modelling assumption of the property), and a run in which a balance exceeds the bound is outside the
-    explored set; the total is what transfers preserve. -/
+    explored set; the total is what transfers preserve.
+    With `cfg.sha3` on: `hsha` as in `C01.sound_calls`, and `hshaok` — the conditions `sha3_data` appends (digest
+    non-zero and at most 2^256 − 2^64; `f_inv_sha3_<bits>` / `f_inv_sha3_size` invert the hash on its low 160 bits)
+    are true under `I` at every state the exploration visits whose path `I` satisfies the SHA3 of: they are modelling
+    assumptions of halmos, not consequences; `shaOK_of_ideal` derives it from the inputs being ideal (`HashIdeal`). -/
 theorem complete_calls {s : Simp} (hs : SimpSound s) {o : Oracle} (ho : OracleSound o) (cfg : Cfg) (env : Env)
     (codes : List (Nat × List Nat)) (this : Nat) (fuel : Nat) (p : Evm.Params) (w : Evm.World)
     (hmem : cfg.maxMem + 32 ≤ p.memLimit) (hdep : 1024 ≤ p.maxDepth)
     (hcodes : ∀ a, w.codeOf a = codeOf codes a)
     (hcb : ∀ a prog, codeOf codes a = some prog → ∀ b ∈ prog, b < 256)
-    (hz : ∀ a, Modelled codes this a → C01.ZeroStorage w a)
+    (hz : ∀ a, Modelled codes this a → C01.ZeroStorage w a) (hnc : cfg.create = false)
     (I : Interp) (hI : I.Std) (hbal : cfg.balances = true → BalHyp I cfg w)
-    (hbound : cfg.balances = true → BalBound w) (f0 : Evm.Frame)
+    (hbound : cfg.balances = true → BalBound w) (hsha : cfg.sha3 = true → ShaInterp I p cfg)
+    (hshaok : ∀ cs, VisitedC s o cfg codes (initC env codes this) cs → ShaOK I s cfg cs) (f0 : Evm.Frame)
     (hR0 : R I env ((codeOf codes this).getD []) p initState f0) (hthis : f0.this = this) (hd0 : f0.depth = 0)
     (n : Nat) (w' : Evm.World) (h : Evm.Halt) (hex : Evm.exec p n w f0 = some (w', h)) :
     (∃ ce ∈ (runC s o cfg env codes this fuel).ends, Sat I ce.e.st.path ∧
@@ -204,7 +209,8 @@ theorem complete_calls {s : Simp} (hs : SimpSound s) {o : Oracle} (ho : OracleSo
     (runC s o cfg env codes this fuel).depthCut = true ∨
     (runC s o cfg env codes this fuel).outOfFuel = true :=
   exploreC_complete (cfg := cfg) (codes := codes) (S := Modelled codes this) (r := (w', h)) hs ho hmem hdep hcodes
-    (fun _ _ h => modelled_of_code h) hcb hI hbal fuel 0 [initC env codes this] {}
+    (fun _ _ h => modelled_of_code h) hcb hI hbal hsha hnc hshaok fuel 0 [initC env codes this] {}
+    (fun cs hm => by rw [List.mem_singleton.1 hm]; exact .start)
     ⟨initC env codes this, List.mem_singleton.2 rfl, Sat.nil I, w, f0, [], relC_init hR0 hthis hd0 hcb hz, ⟨n, hex⟩,
       fun hC => ⟨hbound hC, fun kc hm => absurd hm List.not_mem_nil⟩⟩
 
@@ -239,7 +245,8 @@ example : ∃ ce ∈ (runC foldSimp exOracle {} exEnv C01.exCodes 0x1000 100).en
           simp only [Option.map_some, Option.some.injEq] at hc
           subst hc
           exact hall q (List.mem_of_find?_eq_some hf) b hb)
-      (fun _ _ _ => ⟨rfl, rfl⟩) exI exI_std (fun h => by cases h) (fun h => by cases h) _ hR rfl rfl 40 w' _ hex with
+      (fun _ _ _ => ⟨rfl, rfl⟩) rfl exI exI_std (fun h => by cases h) (fun h => by cases h) (fun h => by cases h)
+      (fun _ _ => shaOK_off rfl) _ hR rfl rfl 40 w' _ hex with
     ⟨ce, hm, _, hc⟩ | h | h | h
   · obtain ⟨ho', ht'⟩ := hshape ce hm
     rcases hc with ⟨h0, ho0, hw, _⟩ | ⟨r, hr⟩ | ht
